@@ -119,6 +119,10 @@ struct World {
     paid_out: BTreeMap<(String, String), u128>,
     /// (channel, denom) pairs whose books are known to be wrong after a v2 migration (known finding)
     afflicted: BTreeSet<(String, String)>,
+    /// redemptions the contract paid to its OWN address, per (channel, denom): tokens it holds that are no escrow
+    self_paid: BTreeMap<(String, String), u128>,
+    /// (channel, denom) pairs whose books a legacy migration inflated by exactly such holdings (known finding)
+    surplus_booked: BTreeSet<(String, String)>,
     flaky_on: bool,
     bank_on: bool,
     next_seq_in: u64,
@@ -321,11 +325,12 @@ impl Ics {
         };
         let mut channels = vec![];
         // channel ids are independent counters on the two chains: half of the worlds use remote ids
-        // that collide with (a rotation of) the local ids
+        // that collide with (a rotation of) the local ids, the other half remote ids that are string
+        // prefixes of one another (channel-5, channel-51, channel-517)
         let collide = two_colliding.unwrap_or_else(|| h.rng.chance(1, 2));
         for i in 0..nch {
             let ours = format!("channel-{}", [1, 2, 7][i]);
-            let theirs = if collide { format!("channel-{}", [1, 2, 7][(i + 1) % nch.max(1)]) } else { format!("channel-{}", [51, 52, 57][i]) };
+            let theirs = if collide { format!("channel-{}", [1, 2, 7][(i + 1) % nch.max(1)]) } else { format!("channel-{}", [5, 51, 517][i]) };
             let r = c.sudo(
                 &ics,
                 &ShimMsg::ChannelConnect { channel_id: ours.clone(), port: our_port.clone(), counterparty_port: CP_PORT.into(), counterparty_channel: theirs.clone(), version: "ics20-1".into(), ordered: false },
@@ -359,6 +364,8 @@ impl Ics {
             escrowed: BTreeMap::new(),
             paid_out: BTreeMap::new(),
             afflicted: BTreeSet::new(),
+            self_paid: BTreeMap::new(),
+            surplus_booked: BTreeSet::new(),
             flaky_on: false,
             bank_on: false,
             next_seq_in: 1,
@@ -431,6 +438,10 @@ impl Ics {
                     _ => rng.range128(1, *v),
                 };
                 let receiver = if rng.chance(1, 8) { "not-a-valid-address".to_string() } else { rng.pick_cloned(&w.users) };
+                // now and then the vouchers are sent home to the transfer contract's own address
+                let mut side = rng.clone();
+                side.below(1000);
+                let receiver = if side.chance(1, 10) && self.prop == "C12" { w.ics.to_string() } else { receiver };
                 ("relayer".into(), Op::ReturnVoucher { channel: k.0.clone(), denom: k.1.clone(), amount, receiver })
             }
             4 => {
@@ -475,6 +486,10 @@ impl Ics {
                     _ => user,
                 };
                 let contract = if rng.chance(1, 20) { "bad-address".to_string() } else { w.cw20s[rng.below_usize(3)].to_string() };
+                // now and then the token contract itself asks to be allowed / to have its limit changed
+                let mut side = rng.clone();
+                side.below(1000);
+                let sender = if side.chance(1, 10) && contract != "bad-address" { contract.clone() } else { sender };
                 let cur = pre.allow.get(&contract).cloned();
                 let gas = match (cur, rng.below(8)) {
                     (_, 0) => None,
@@ -705,7 +720,17 @@ impl Ics {
                         *e = e.saturating_sub(*amount);
                         // full amount paid to the receiver, balance reduced by it
                         if prop == "C12" {
-                            if let Some(t) = w.token_of_denom(denom) {
+                            if *receiver == w.ics.as_str() {
+                                // paid to the contract itself: its holdings stay what they were
+                                h.out.count("honest_returns_addressed_to_the_contract_itself");
+                                *w.self_paid.entry(k.clone()).or_insert(0) += amount;
+                                if let Some(t) = w.token_of_denom(denom) {
+                                    let (b0, b1) = (*pre.holdings.get(&t).unwrap_or(&0), *post.holdings.get(&t).unwrap_or(&0));
+                                    if !h.check(b1 == b0, "C12/receive/self-addressed-payout-changed-holdings", || format!("holdings {b0} -> {b1}, packet amount {amount} addressed to the contract itself")) {
+                                        return false;
+                                    }
+                                }
+                            } else if let Some(t) = w.token_of_denom(denom) {
                                 let b0 = *pre.users.get(&(receiver.clone(), t.clone())).unwrap_or(&0);
                                 let b1 = *post.users.get(&(receiver.clone(), t.clone())).unwrap_or(&0);
                                 if !h.check(b1 == b0 + amount, "C12/receive/success-ack-without-full-payout", || format!("receiver {receiver} balance {b0} -> {b1}, packet amount {amount}")) {
@@ -807,7 +832,7 @@ impl Ics {
         if prop == "C12" {
             let keys: BTreeSet<(String, String)> = post.chan.keys().cloned().chain(w.sent.keys().cloned()).collect();
             for k in keys {
-                if w.afflicted.contains(&k) {
+                if w.afflicted.contains(&k) || w.surplus_booked.contains(&k) {
                     continue;
                 }
                 let got = post.chan.get(&k).map(|x| x.0).unwrap_or(0) as i128;
@@ -975,6 +1000,9 @@ impl Ics {
                         }
                     } else {
                         h.out.count("non_gov_allow_rejected");
+                        if sender == contract {
+                            h.out.count("allow_by_the_named_token_itself_rejected");
+                        }
                         if w.former_gov.iter().any(|f| f == sender) {
                             h.out.count("former_gov_allow_rejected");
                         }
@@ -1140,6 +1168,15 @@ impl Ics {
                             "C12/migrate-v2/in-flight-denom-without-channel-state",
                             format!("after migrating from {version}: channel {} denom {} reports {got}, but {want} were sent and are still in flight (no channel-state entry existed, so the migration skipped it)", k.0, k.1),
                         );
+                    } else if w.self_paid.get(&k).map(|s| *s > 0 && got - want == *s as i128).unwrap_or(false) {
+                        // the legacy migration books whatever the contract holds beyond the recorded outstanding amount as
+                        // "in flight": tokens the contract once paid out to its own address are such holdings
+                        h.violate_continue(
+                            "C12/migrate-v2/own-holdings-booked-as-in-flight",
+                            format!("after migrating from {version}: channel {} denom {} reports {got}, ledger {want}; the difference {} is what the contract had paid to its own address in redemptions (it holds them, nobody sent them)", k.0, k.1, got - want),
+                        );
+                        w.surplus_booked.insert(k.clone());
+                        w.self_paid.remove(&k);
                     } else {
                         h.violate("C12/migrate/outstanding-differs-from-ledger-after-migration", format!("channel {} denom {}: reported {got}, ledger {want}", k.0, k.1));
                         return false;
@@ -1415,6 +1452,7 @@ impl Monitor for Ics {
                 "receives_acked_success",
                 "receives_acked_error",
                 "receives_with_failed_payout",
+                "honest_returns_addressed_to_the_contract_itself",
                 "error_acks_checked_for_no_change",
                 "acks_success_processed",
                 "acks_error_processed",
@@ -1432,6 +1470,7 @@ impl Monitor for Ics {
                 "lowering_attempts_rejected",
                 "limiting_unlimited_rejected",
                 "non_gov_allow_rejected",
+                "allow_by_the_named_token_itself_rejected",
                 "former_gov_allow_rejected",
                 "gov_handovers_ok",
                 "migrations_ok",
